@@ -98,6 +98,23 @@ def _singular(M):
     return r < n
 
 
+def _eqtol(A, B):
+    """equality of elements: exact on exact types, to rounding (1e-9 relative) when floats are involved"""
+    if O.eq(A, B):
+        return True
+    try:
+        for k in set(A) | set(B):
+            a, b = A.get(k, 0), B.get(k, 0)
+            if not (isinstance(a, float) or isinstance(b, float)):
+                if a != b:
+                    return False
+            elif abs(float(a) - float(b)) > 1e-9 * max(1.0, abs(float(b))):
+                return False
+        return True
+    except Exception:
+        return False
+
+
 def _near(A, B, d):
     """exact for d <= 5 (closed forms on exact types), to rounding beyond (the iterative scheme divides through floats)"""
     if d <= 5:
@@ -333,7 +350,7 @@ def job_options(job):
                     if base_res is None:
                         base_res = val
                         continue
-                    same = val[0] == base_res[0] and (val[0] == 'raise' and val[1].split(':')[0] == base_res[1].split(':')[0] or val[0] == 'value' and O.eq(val[1], base_res[1]))
+                    same = val[0] == base_res[0] and (val[0] == 'raise' and val[1].split(':')[0] == base_res[1].split(':')[0] or val[0] == 'value' and _eqtol(val[1], base_res[1]))
                     complete = True
                     if v.get('graded') and r[0] == 'value' and r[1].keys():
                         g = tuple(sorted({bin(k).count('1') for k in r[1].keys()}))
